@@ -35,10 +35,10 @@ func init() {
 				cpus = []int{1, 2, 3, 4, 5, 6, 8, 12, 16, 16, 7, 9}
 			}
 			for i, k := range cpus {
-				out = append(out, Child{Flavour: "plain", NCPU: k, Shard: i, NShards: len(cpus), Params: map[string]string{"sched": fmt.Sprint(i % 3)}})
+				out = append(out, Child{TimeoutS: pick(tier, 400, 3600), Flavour: "plain", NCPU: k, Shard: i, NShards: len(cpus), Params: map[string]string{"sched": fmt.Sprint(i % 3)}})
 			}
 			if tier == "thorough" {
-				out = append(out, Child{Flavour: "race", NCPU: 8, Shard: 0, NShards: 24, Params: map[string]string{"sched": "1", "race": "1"}})
+				out = append(out, Child{TimeoutS: pick(tier, 400, 3600), Flavour: "race", NCPU: 8, Shard: 0, NShards: 24, Params: map[string]string{"sched": "1", "race": "1"}})
 			}
 			return out
 		},
